@@ -11,6 +11,7 @@ Import ListNotations.
        (stmt_ok_at; env_ok requires cur <> None, so a point the checker holds unreachable is never
        reached), and every expression evaluated in such an environment yields a member of its static
        type together with correct narrowing maps (expr_ok_at). *)
+(* user exceptions propagating out of a call are ordinary outcomes; TypeError / AttributeError are "going wrong" *)
 Definition do_not_go_wrong (accepts : prog -> bool) : Prop :=
   forall P, accepts P = true ->
     (forall g fd vs fuel, lookup (p_funcs P) g = Some fd -> mems P vs (map snd (f_params fd)) ->
